@@ -1,5 +1,24 @@
-"""C03 -- see DESIGN.md §8 C03."""
+"""C03 -- labels stay attached under every operation history (DESIGN §8 C03).
+
+Mode A1 by proxy execution: the REAL methods of the real classes are executed
+by CPython on opaque symbolic arrays (pyvc.oarr).  For every structural
+operation the contract is *uniformity*: the output field of every array that
+belongs to the operated axis equals the SAME numpy operator with the SAME index
+argument applied to the corresponding input field (mat along the axis, labels
+along axis 0); arrays of the other axes are passed through unchanged; operands
+are not assigned and no pre-existing array buffer is written; the class
+invariant WF (label lengths == axis length) is re-established because the real
+constructor's own checks run on the symbolic shapes and must not raise.
+"All finite histories" follows by induction over the operation sequence: the
+induction step is exactly this per-operation obligation set under WF.
+"""
+import importlib, itertools
+import numpy, z3
 from pyvc.unit import unit
+from pyvc import sym, oarr, loopcut
+from pyvc.sym import cur, _t, fresh_int, SymInt
+from pyvc.oarr import OArr, same
+
 P = "C03"
 REPLAYERS = {}
 try:
@@ -7,3 +26,566 @@ try:
     REPLAYERS.update(getattr(_ring, "REPLAYERS", {}))
 except ImportError:
     _ring = None
+
+LABELS = {
+    "taxa": [("taxa", object), ("taxa_grp", "int64")],
+    "vrnt": [("vrnt_chrgrp", "int64"), ("vrnt_phypos", "int64"), ("vrnt_name", object), ("vrnt_genpos", "float64"),
+             ("vrnt_xoprob", "float64"), ("vrnt_hapgrp", "int64"), ("vrnt_hapalt", object), ("vrnt_hapref", object),
+             ("vrnt_mask", bool)],
+    "trait": [("trait", object)],
+}
+GROUPKEY = {"taxa": "taxa_grp", "vrnt": "vrnt_chrgrp"}
+META = {"taxa": ["taxa_grp_name", "taxa_grp_stix", "taxa_grp_spix", "taxa_grp_len"],
+        "vrnt": ["vrnt_chrgrp_name", "vrnt_chrgrp_stix", "vrnt_chrgrp_spix", "vrnt_chrgrp_len"]}
+DIM = {"taxa": "n", "vrnt": "p", "trait": "t"}
+
+# class table: module, class, mat dims (letters; repeated letter = square axes), dtype, extra ctor kwargs
+CLASSES = [
+    ("pybrops.core.mat.DenseTaxaMatrix", "DenseTaxaMatrix", "nx", "float64", {}),
+    ("pybrops.core.mat.DenseVariantMatrix", "DenseVariantMatrix", "px", "float64", {}),
+    ("pybrops.core.mat.DenseTraitMatrix", "DenseTraitMatrix", "tx", "float64", {}),
+    ("pybrops.core.mat.DenseTaxaVariantMatrix", "DenseTaxaVariantMatrix", "np", "float64", {}),
+    ("pybrops.core.mat.DensePhasedTaxaVariantMatrix", "DensePhasedTaxaVariantMatrix", "mnp", "float64", {}),
+    ("pybrops.core.mat.DenseTaxaTraitMatrix", "DenseTaxaTraitMatrix", "nt", "float64", {}),
+    ("pybrops.core.mat.DenseSquareTaxaMatrix", "DenseSquareTaxaMatrix", "nn", "float64", {}),
+    ("pybrops.core.mat.DenseSquareTaxaTraitMatrix", "DenseSquareTaxaTraitMatrix", "nnt", "float64", {}),
+    ("pybrops.popgen.gmat.DenseGenotypeMatrix", "DenseGenotypeMatrix", "np", "int8", {"ploidy": 2}),
+    ("pybrops.popgen.gmat.DensePhasedGenotypeMatrix", "DensePhasedGenotypeMatrix", "mnp", "int8", {}),
+    ("pybrops.popgen.cmat.DenseMolecularCoancestryMatrix", "DenseMolecularCoancestryMatrix", "nn", "float64", {}),
+]
+PATCH = ["pybrops.*", "pybrops.core.error.error_type_python", "pybrops.core.error.error_value_python",
+         "pybrops.core.error.error_type_numpy", "pybrops.core.error.error_value_numpy",
+         "pybrops.core.error.error_attr_python", "pybrops.core.error.error_generic_python"]
+TRUST = ["numpy structural operators take/delete/insert/append/concatenate/fancy index/lexsort/unique as opaque functions with "
+         "the shape rules of pyvc/oarr.py (DESIGN §4.3); equal terms <=> the same position map was applied",
+         "the real constructors' check_* helpers are executed (not modelled); isinstance/len in them are symbolic-aware"]
+
+
+def get_cls(mod, name):
+    return getattr(importlib.import_module(mod), name)
+
+
+def axes_of(cls):
+    return [a for a in ("taxa", "vrnt", "trait") if hasattr(cls, a + "_axis")]
+
+
+class Inst:
+    """a symbolic instance + the book-keeping needed by the specs"""
+
+    def __init__(self, cls, dims, dtype, extra, present, grouped=(), tag="", share=None):
+        e = cur()
+        self.cls = cls
+        self.letters = dims
+        share = share or {}
+        self.dimv = {}
+        for ch in dims:
+            if ch not in self.dimv:
+                self.dimv[ch] = share[ch] if ch in share else fresh_int(tag + ch, 0 if ch != "m" else 1)
+        self.mat = OArr.fresh(tag + "mat", tuple(self.dimv[ch] for ch in dims), dtype)
+        self.fields = {"mat": self.mat}
+        kw = dict(mat=self.mat)
+        self.axes = axes_of(cls)
+        for ax in self.axes:
+            for lab, dt in LABELS[ax]:
+                if lab in present:
+                    kw[lab] = OArr.fresh(tag + lab, (self.dimv[DIM[ax]],), dt)
+                    self.fields[lab] = kw[lab]
+                else:
+                    self.fields[lab] = None
+        kw.update(extra)
+        self.obj = cls(**kw)
+        for ax in self.axes:
+            for m in META.get(ax, []):
+                self.fields[m] = None
+        for ax in grouped:
+            g = fresh_int(tag + "ngrp_" + ax, 0)
+            key = GROUPKEY[ax]
+            names = META[ax]
+            dts = [self.fields[key]._dt, "int64", "int64", "int64"]
+            for m, dt in zip(names, dts):
+                a = OArr.fresh(tag + m, (g,), dt)
+                setattr(self.obj, m, a)
+                self.fields[m] = a
+        self.pre_terms = {k: (v._term if v is not None else None) for k, v in self.fields.items()}
+
+    def axis_index(self, ax):
+        return getattr(self.obj, ax + "_axis")
+
+    def mat_axes(self, ax):
+        if ax == "taxa" and hasattr(self.obj, "square_taxa_axes"):
+            return tuple(self.obj.square_taxa_axes)
+        return (self.axis_index(ax),)
+
+    def cur_field(self, name, obj=None):
+        return getattr(obj if obj is not None else self.obj, "_" + name)
+
+
+def field_names(inst):
+    out = ["mat"]
+    for ax in inst.axes:
+        out += [l for l, _ in LABELS[ax]] + META.get(ax, [])
+    return out
+
+
+# --------------------------------------------------------------------------
+# spec helpers: apply an operator to mat along the axis (all square axes) and to a label along axis 0
+def on_mat(inst, ax, f):
+    m = inst.fields["mat"]
+    for a in inst.mat_axes(ax):
+        m = f(m, a)
+    return m
+
+
+def expect_uniform(inst, ax, matop, labop, meta_same_axis=None):
+    """expected output fields for an operation along `ax`"""
+    exp = {"mat": on_mat(inst, ax, matop)}
+    for a2 in inst.axes:
+        for lab, _ in LABELS[a2]:
+            v = inst.fields[lab]
+            exp[lab] = (labop(lab, v) if v is not None else None) if a2 == ax else v
+        for m in META.get(a2, []):
+            exp[m] = (meta_same_axis(m) if meta_same_axis else None) if a2 == ax else inst.fields[m]
+    return exp
+
+
+def compare(e, name, inst, got_obj, exp, skip=()):
+    for f in field_names(inst):
+        if f in skip:
+            continue
+        g = getattr(got_obj, "_" + f)
+        x = exp[f]
+        if g is None or x is None:
+            e.prove("%s:%s" % (name, f), (g is None) and (x is None))
+        elif isinstance(g, OArr) and isinstance(x, OArr) and g._term.eq(x._term) and g._dt == x._dt and g.ndim == x.ndim:
+            e.obligations.append(dict(name="%s:%s" % (name, f), unit=e.unit, kind="post", path=e.path_id, status="proved",
+                                      solver="syntactic", seconds=0.0, expect="proved"))
+        else:
+            e.prove("%s:%s" % (name, f), same(g, x))
+
+
+def frame_ok(e, name, inst, obj=None, mutated_fields=False):
+    """operand not assigned (copying forms) and no pre-existing array buffer written"""
+    ok_buf = all(v is None or v._term.eq(inst.pre_terms[k]) for k, v in inst.fields.items())
+    e.prove(name + ":frame:no-pre-existing-array-buffer-written", ok_buf)
+    if not mutated_fields:
+        ok_attr = all(inst.cur_field(k) is v for k, v in inst.fields.items())
+        e.prove(name + ":frame:operand-fields-not-assigned", ok_attr)
+
+
+def presence_configs(cls, tier):
+    labs = [l for ax in axes_of(cls) for l, _ in LABELS[ax]]
+    full = tuple(labs)
+    cfgs = [full, ()]
+    # taxa_grp needs taxa? no; single-absent and single-present variants
+    if tier == "thorough":
+        for l in labs:
+            cfgs.append(tuple(x for x in labs if x != l))
+            cfgs.append((l,))
+    else:
+        if len(labs) > 1:
+            cfgs.append(tuple(labs[::2]))
+            cfgs.append(tuple(labs[1::2]))
+    seen, out = set(), []
+    for c in cfgs:
+        if c not in seen:
+            seen.add(c)
+            out.append(c)
+    return out
+
+
+def fresh_indices(name, k=None):
+    k = k if k is not None else fresh_int("k_" + name, 0)
+    return OArr.fresh(name, (k,), "int64")
+
+
+def values_block(inst, ax, tag, as_matrix, present):
+    """a block of k new entries along ax: either a raw ndarray + label kwargs, or a Matrix of the same class"""
+    share = {ch: v for ch, v in inst.dimv.items() if ch != DIM[ax]}
+    if hasattr(inst.obj, "square_taxa_axes") and ax == "taxa":
+        # adjoining to a square matrix requires a block that is square-compatible; use ndarray form only
+        return None
+    other = Inst(inst.cls, inst.letters, inst.mat._dt, EXTRA[inst.cls.__name__], present, tag=tag, share=share)
+    return other
+
+
+EXTRA = {c[1]: c[4] for c in CLASSES}
+
+
+# --------------------------------------------------------------------------
+def run_class(ctx, mod, name, dims, dtype, extra):
+    cls = get_cls(mod, name)
+    ctx.trust(*TRUST)
+    ex = ctx.explorer(timeout_ms=5000)
+    ops_done = []
+    for present in presence_configs(cls, ctx.tier):
+        for ax in axes_of(cls):
+            for op in ("select", "delete_arr", "delete_int", "reorder", "lexsort", "sort", "group", "adjoin", "insert_arr",
+                       "concat3", "append", "remove", "incorp_arr", "generic_select", "generic_delete", "generic_adjoin",
+                       "generic_concat", "generic_sort", "generic_group", "select_grouped_other", "copy", "deepcopy",
+                       "reorder_grouped", "generic_reorder", "generic_incorp", "generic_remove", "generic_append",
+                       "generic_insert", "insert_int", "incorp_int", "ungroup"):
+                cfg = "%s|%s|%s" % (op, ax, ",".join(present) or "-")
+                runner = OPS.get(op)
+                if runner is None:
+                    continue
+                if not hasattr(cls, op.split("_")[0].replace("generic", "select") + "_" + ax) and not op.startswith(("copy", "deepcopy")):
+                    pass
+                def thunk(op=op, ax=ax, present=present, cfg=cfg):
+                    return runner(cur(), cls, dims, dtype, extra, present, ax, "%s:%s" % (name, cfg))
+                try:
+                    outs = ex.explore(thunk)
+                except sym.Unsupported as u:
+                    import traceback
+                    ex.obligations.append(dict(name="%s:%s:supported-subset" % (name, cfg), unit=ex.unit, kind="unsupported",
+                                               path=0, status="unknown", solver="front-end", seconds=0.0, expect="proved",
+                                               detail="UNSUPPORTED %s\n%s" % (u, traceback.format_exc()[-1200:])))
+                    continue
+                raised = [o for o in outs if isinstance(o, sym.Raised)]
+                skipped = [o for o in outs if o == "n/a"]
+                if skipped and len(skipped) == len(outs):
+                    continue
+                ops_done.append(cfg)
+                ex.obligations.append(dict(
+                    name="%s:%s:noraise" % (name, cfg), unit=ex.unit, kind="noraise", path=0,
+                    status="proved" if not raised else "refuted", solver="native", seconds=0.0, expect="proved",
+                    detail="; ".join(repr(r) for r in raised[:2]) + ("\n" + raised[0].tb[-900:] if raised else "")))
+    ctx.absorb(ex)
+    ctx.record("%s:operations-covered>=1 (cover)" % name, len(ops_done) > 0, kind="cover", detail=str(len(ops_done)))
+    ctx.notes.append("%s: %d operation configurations" % (name, len(ops_done)))
+
+
+def _mk(cls, dims, dtype, extra, present, grouped=(), tag=""):
+    return Inst(cls, dims, dtype, extra, present, grouped, tag)
+
+
+def op_select(e, cls, dims, dtype, extra, present, ax, nm):
+    if not hasattr(cls, "select_" + ax):
+        return "n/a"
+    inst = _mk(cls, dims, dtype, extra, present)
+    idx = fresh_indices("indices")
+    out = getattr(inst.obj, "select_" + ax)(idx)
+    exp = expect_uniform(inst, ax, lambda m, a: oarr.a_take(m, idx, a), lambda l, v: oarr.a_take(v, idx, 0))
+    e.prove(nm + ":result-class", type(out) is cls)
+    compare(e, nm, inst, out, exp)
+    frame_ok(e, nm, inst)
+    return "ok"
+
+
+def op_generic_select(e, cls, dims, dtype, extra, present, ax, nm):
+    if not hasattr(cls, "select_" + ax):
+        return "n/a"
+    inst = _mk(cls, dims, dtype, extra, present)
+    idx = fresh_indices("indices")
+    out = inst.obj.select(idx, axis=inst.axis_index(ax))
+    exp = expect_uniform(inst, ax, lambda m, a: oarr.a_take(m, idx, a), lambda l, v: oarr.a_take(v, idx, 0))
+    compare(e, nm, inst, out, exp)
+    # negative axis form
+    out2 = inst.obj.select(idx, axis=inst.axis_index(ax) - inst.mat.ndim)
+    compare(e, nm + ":negaxis", inst, out2, exp)
+    frame_ok(e, nm, inst)
+    return "ok"
+
+
+def op_delete(kind, generic=False):
+    def run(e, cls, dims, dtype, extra, present, ax, nm):
+        if not hasattr(cls, "delete_" + ax):
+            return "n/a"
+        inst = _mk(cls, dims, dtype, extra, present)
+        obj = fresh_indices("obj") if kind == "arr" else fresh_int("obj")
+        if kind == "int":
+            e.assume(z3.And(_t(obj) >= 0, _t(obj) < _t(inst.dimv[DIM[ax]])))
+        else:
+            e.assume(_t(obj.shape[0]) <= _t(inst.dimv[DIM[ax]]))
+        if generic:
+            out = inst.obj.delete(obj, axis=inst.axis_index(ax))
+        else:
+            out = getattr(inst.obj, "delete_" + ax)(obj)
+        exp = expect_uniform(inst, ax, lambda m, a: oarr.a_delete(m, obj, a), lambda l, v: oarr.a_delete(v, obj, 0))
+        compare(e, nm, inst, out, exp)
+        frame_ok(e, nm, inst)
+        return "ok"
+    return run
+
+
+def op_reorder(e, cls, dims, dtype, extra, present, ax, nm):
+    if not hasattr(cls, "reorder_" + ax):
+        return "n/a"
+    inst = _mk(cls, dims, dtype, extra, present)
+    idx = fresh_indices("perm", inst.dimv[DIM[ax]])
+    getattr(inst.obj, "reorder_" + ax)(idx)
+    exp = expect_uniform(inst, ax, lambda m, a: oarr.a_take(m, idx, a), lambda l, v: oarr.a_take(v, idx, 0))
+    compare(e, nm, inst, inst.obj, exp)
+    frame_ok(e, nm, inst, mutated_fields=True)
+    return "ok"
+
+
+def op_reorder_grouped(e, cls, dims, dtype, extra, present, ax, nm):
+    """reorder after group: the stale group metadata must not survive (finding 4)"""
+    if not hasattr(cls, "reorder_" + ax) or ax not in GROUPKEY or GROUPKEY[ax] not in present:
+        return "n/a"
+    inst = _mk(cls, dims, dtype, extra, present, grouped=(ax,))
+    idx = fresh_indices("perm", inst.dimv[DIM[ax]])
+    getattr(inst.obj, "reorder_" + ax)(idx)
+    e.prove(nm + ":group-metadata-reset", all(getattr(inst.obj, "_" + m) is None for m in META[ax]))
+    return "ok"
+
+
+def default_keys(inst, ax):
+    if ax == "taxa":
+        return [inst.fields["taxa"], inst.fields["taxa_grp"]]
+    if ax == "vrnt":
+        return [inst.fields["vrnt_phypos"], inst.fields["vrnt_chrgrp"]]
+    return [inst.fields["trait"]]
+
+
+def op_lexsort(e, cls, dims, dtype, extra, present, ax, nm):
+    if not hasattr(cls, "lexsort_" + ax):
+        return "n/a"
+    keys = None
+    inst = _mk(cls, dims, dtype, extra, present)
+    ks = [k for k in default_keys(inst, ax) if k is not None]
+    if not ks:
+        return "n/a"
+    out = getattr(inst.obj, "lexsort_" + ax)()
+    e.prove(nm + ":default-keys", same(out, oarr.a_lexsort(ks)))
+    k2 = OArr.fresh("userkey", (inst.dimv[DIM[ax]],), "int64")
+    out2 = getattr(inst.obj, "lexsort_" + ax)((k2,))
+    e.prove(nm + ":user-keys", same(out2, oarr.a_lexsort([k2])))
+    frame_ok(e, nm, inst)
+    return "ok"
+
+
+def op_sort(generic=False):
+    def run(e, cls, dims, dtype, extra, present, ax, nm):
+        if not hasattr(cls, "sort_" + ax):
+            return "n/a"
+        inst = _mk(cls, dims, dtype, extra, present, grouped=(ax,) if (ax in GROUPKEY and GROUPKEY[ax] in present) else ())
+        ks = [k for k in default_keys(inst, ax) if k is not None]
+        if not ks:
+            return "n/a"
+        if generic:
+            inst.obj.sort(keys=None, axis=inst.axis_index(ax))
+        else:
+            getattr(inst.obj, "sort_" + ax)()
+        idx = oarr.a_lexsort(ks)
+        exp = expect_uniform(inst, ax, lambda m, a: oarr.a_take(m, idx, a), lambda l, v: oarr.a_take(v, idx, 0))
+        compare(e, nm, inst, inst.obj, exp)
+        frame_ok(e, nm, inst, mutated_fields=True)
+        return "ok"
+    return run
+
+
+def op_group(generic=False):
+    def run(e, cls, dims, dtype, extra, present, ax, nm):
+        if not hasattr(cls, "group_" + ax) or ax not in GROUPKEY or GROUPKEY[ax] not in present:
+            return "n/a"
+        inst = _mk(cls, dims, dtype, extra, present)
+        ks = [k for k in default_keys(inst, ax) if k is not None]
+        if generic:
+            inst.obj.group(axis=inst.axis_index(ax))
+        else:
+            getattr(inst.obj, "group_" + ax)()
+        idx = oarr.a_lexsort(ks)
+        key_sorted = oarr.a_take(inst.fields[GROUPKEY[ax]], idx, 0)
+        u, ui, uc = oarr.a_unique(key_sorted, return_index=True, return_counts=True)
+        names = META[ax]
+        meta = {names[0]: u, names[1]: ui, names[2]: ui + uc, names[3]: uc}
+        exp = expect_uniform(inst, ax, lambda m, a: oarr.a_take(m, idx, a), lambda l, v: oarr.a_take(v, idx, 0),
+                             meta_same_axis=lambda m: meta[m])
+        compare(e, nm, inst, inst.obj, exp)
+        e.prove(nm + ":reports-grouped", bool(getattr(inst.obj, "is_grouped_" + ax)()) is True)
+        frame_ok(e, nm, inst, mutated_fields=True)
+        return "ok"
+    return run
+
+
+def _block(inst, ax, tag, present):
+    """raw ndarray block of k entries along ax plus label kwargs for the labels present in inst"""
+    k = fresh_int(tag + "k", 0)
+    shp = list(inst.mat.shape)
+    for a in inst.mat_axes(ax)[:1]:
+        shp[a] = k
+    vals = OArr.fresh(tag + "values", tuple(shp), inst.mat._dt)
+    kw = {}
+    for lab, dt in LABELS[ax]:
+        if lab in present:
+            kw[lab] = OArr.fresh(tag + lab, (k,), dt)
+    return vals, kw, k
+
+
+def op_adjoin(generic=False, inplace=False):
+    def run(e, cls, dims, dtype, extra, present, ax, nm):
+        meth = ("append_" if inplace else "adjoin_") + ax
+        if not hasattr(cls, meth) or hasattr(cls, "square_taxa_axes") and ax == "taxa":
+            return "n/a"
+        inst = _mk(cls, dims, dtype, extra, present, grouped=(ax,) if (inplace and ax in GROUPKEY and GROUPKEY[ax] in present) else ())
+        vals, kw, k = _block(inst, ax, "v_", present)
+        if generic:
+            out = (inst.obj.append if inplace else inst.obj.adjoin)(vals, axis=inst.axis_index(ax), **kw)
+        else:
+            out = getattr(inst.obj, meth)(vals, **kw)
+        exp = expect_uniform(inst, ax, lambda m, a: oarr.a_concatenate([m, vals], a),
+                             lambda l, v: oarr.a_concatenate([v, kw[l]], 0))
+        compare(e, nm, inst, inst.obj if inplace else out, exp)
+        frame_ok(e, nm, inst, mutated_fields=inplace)
+        # Matrix-valued form: labels are taken from the operand
+        other = Inst(cls, dims, dtype, extra, present, tag="o_", share={ch: v for ch, v in inst.dimv.items() if ch != DIM[ax]})
+        inst2 = _mk(cls, dims, dtype, extra, present, tag="s2_") if False else None
+        if not inplace:
+            out2 = getattr(inst.obj, meth)(other.obj)
+            exp2 = expect_uniform(inst, ax, lambda m, a: oarr.a_concatenate([m, other.fields["mat"]], a),
+                                  lambda l, v: oarr.a_concatenate([v, other.fields[l]], 0))
+            compare(e, nm + ":matrix-operand", inst, out2, exp2)
+            frame_ok(e, nm + ":matrix-operand:other", other)
+        return "ok"
+    return run
+
+
+def op_insert(inplace=False, generic=False, scalar=False):
+    def run(e, cls, dims, dtype, extra, present, ax, nm):
+        meth = ("incorp_" if inplace else "insert_") + ax
+        if not hasattr(cls, meth) or hasattr(cls, "square_taxa_axes") and ax == "taxa":
+            return "n/a"
+        inst = _mk(cls, dims, dtype, extra, present, grouped=(ax,) if (inplace and ax in GROUPKEY and GROUPKEY[ax] in present) else ())
+        vals, kw, k = _block(inst, ax, "v_", present)
+        if scalar:
+            obj = fresh_int("obj")
+            e.assume(z3.And(_t(obj) >= 0, _t(obj) <= _t(inst.dimv[DIM[ax]])))
+        else:
+            obj = fresh_indices("obj", k)
+        if generic:
+            out = (inst.obj.incorp if inplace else inst.obj.insert)(obj, vals, axis=inst.axis_index(ax), **kw)
+        else:
+            out = getattr(inst.obj, meth)(obj, vals, **kw)
+        exp = expect_uniform(inst, ax, lambda m, a: oarr.a_insert(m, obj, vals, a),
+                             lambda l, v: oarr.a_insert(v, obj, kw[l], 0))
+        compare(e, nm, inst, inst.obj if inplace else out, exp)
+        frame_ok(e, nm, inst, mutated_fields=inplace)
+        return "ok"
+    return run
+
+
+def op_ungroup(e, cls, dims, dtype, extra, present, ax, nm):
+    if not hasattr(cls, "ungroup_" + ax) or ax not in GROUPKEY or GROUPKEY[ax] not in present:
+        return "n/a"
+    inst = _mk(cls, dims, dtype, extra, present, grouped=(ax,))
+    e.prove(nm + ":reports-grouped-before", bool(getattr(inst.obj, "is_grouped_" + ax)()) is True)
+    getattr(inst.obj, "ungroup_" + ax)()
+    exp = dict(inst.fields)
+    for m in META[ax]:
+        exp[m] = None
+    compare(e, nm, inst, inst.obj, exp)
+    e.prove(nm + ":reports-ungrouped", bool(getattr(inst.obj, "is_grouped_" + ax)()) is False)
+    e.prove(nm + ":generic-is_grouped-agrees", bool(inst.obj.is_grouped(axis=inst.axis_index(ax))) is False)
+    return "ok"
+
+
+def op_generic_reorder(e, cls, dims, dtype, extra, present, ax, nm):
+    if not hasattr(cls, "reorder_" + ax):
+        return "n/a"
+    inst = _mk(cls, dims, dtype, extra, present)
+    idx = fresh_indices("perm", inst.dimv[DIM[ax]])
+    inst.obj.reorder(idx, axis=inst.axis_index(ax))
+    exp = expect_uniform(inst, ax, lambda m, a: oarr.a_take(m, idx, a), lambda l, v: oarr.a_take(v, idx, 0))
+    compare(e, nm, inst, inst.obj, exp)
+    return "ok"
+
+
+def op_remove_g(generic):
+  def op_remove(e, cls, dims, dtype, extra, present, ax, nm):
+    if not hasattr(cls, "remove_" + ax):
+        return "n/a"
+    inst = _mk(cls, dims, dtype, extra, present, grouped=(ax,) if (ax in GROUPKEY and GROUPKEY[ax] in present) else ())
+    obj = fresh_indices("obj")
+    e.assume(_t(obj.shape[0]) <= _t(inst.dimv[DIM[ax]]))
+    if generic:
+        inst.obj.remove(obj, axis=inst.axis_index(ax))
+    else:
+        getattr(inst.obj, "remove_" + ax)(obj)
+    exp = expect_uniform(inst, ax, lambda m, a: oarr.a_delete(m, obj, a), lambda l, v: oarr.a_delete(v, obj, 0))
+    compare(e, nm, inst, inst.obj, exp)
+    frame_ok(e, nm, inst, mutated_fields=True)
+    return "ok"
+  return op_remove
+
+
+def op_concat(generic=False):
+    def run(e, cls, dims, dtype, extra, present, ax, nm):
+        if not hasattr(cls, "concat_" + ax) or hasattr(cls, "square_taxa_axes") and ax == "taxa":
+            return "n/a"
+        a = _mk(cls, dims, dtype, extra, present, tag="a_")
+        share = {ch: v for ch, v in a.dimv.items() if ch != DIM[ax]}
+        b = Inst(cls, dims, dtype, extra, present, tag="b_", share=share)
+        c = Inst(cls, dims, dtype, extra, present, tag="c_", share=share)
+        if generic:
+            out = cls.concat([a.obj, b.obj, c.obj], axis=a.axis_index(ax))
+        else:
+            out = getattr(cls, "concat_" + ax)([a.obj, b.obj, c.obj])
+        exp = expect_uniform(a, ax, lambda m, x: oarr.a_concatenate([m, b.fields["mat"], c.fields["mat"]], x),
+                             lambda l, v: oarr.a_concatenate([v, b.fields[l], c.fields[l]], 0))
+        compare(e, nm, a, out, exp)
+        for o in (a, b, c):
+            frame_ok(e, nm + ":operand", o)
+        return "ok"
+    return run
+
+
+def op_select_grouped_other(e, cls, dims, dtype, extra, present, ax, nm):
+    """operating on one axis keeps the (valid) group metadata of the other axes"""
+    others = [a for a in axes_of(cls) if a != ax and a in GROUPKEY and GROUPKEY[a] in present]
+    if not others or not hasattr(cls, "select_" + ax):
+        return "n/a"
+    inst = _mk(cls, dims, dtype, extra, present, grouped=tuple(others))
+    idx = fresh_indices("indices")
+    out = getattr(inst.obj, "select_" + ax)(idx)
+    exp = expect_uniform(inst, ax, lambda m, a: oarr.a_take(m, idx, a), lambda l, v: oarr.a_take(v, idx, 0))
+    compare(e, nm, inst, out, exp)
+    return "ok"
+
+
+def op_copy(deep):
+    def run(e, cls, dims, dtype, extra, present, ax, nm):
+        if ax != axes_of(cls)[0]:
+            return "n/a"
+        import copy as _copy
+        grouped = tuple(a for a in axes_of(cls) if a in GROUPKEY and GROUPKEY[a] in present)
+        inst = _mk(cls, dims, dtype, extra, present, grouped=grouped)
+        out = (_copy.deepcopy if deep else _copy.copy)(inst.obj)
+        compare(e, nm, inst, out, dict(inst.fields))
+        e.prove(nm + ":result-class", type(out) is cls and out is not inst.obj)
+        if deep:
+            e.prove(nm + ":shares-no-array-object",
+                    all(getattr(out, "_" + k) is not v for k, v in inst.fields.items() if v is not None))
+        frame_ok(e, nm, inst)
+        return "ok"
+    return run
+
+
+OPS = {
+    "select": op_select, "generic_select": op_generic_select,
+    "delete_arr": op_delete("arr"), "delete_int": op_delete("int"), "generic_delete": op_delete("arr", True),
+    "reorder": op_reorder, "lexsort": op_lexsort, "sort": op_sort(), "generic_sort": op_sort(True),
+    "group": op_group(), "generic_group": op_group(True),
+    "adjoin": op_adjoin(), "generic_adjoin": op_adjoin(True), "append": op_adjoin(inplace=True),
+    "insert_arr": op_insert(), "incorp_arr": op_insert(True), "remove": op_remove_g(False), "generic_remove": op_remove_g(True),
+    "generic_insert": op_insert(generic=True), "generic_incorp": op_insert(True, generic=True),
+    "insert_int": op_insert(scalar=True), "incorp_int": op_insert(True, scalar=True),
+    "generic_append": op_adjoin(True, True), "reorder_grouped": op_reorder_grouped, "generic_reorder": op_generic_reorder,
+    "ungroup": op_ungroup,
+    "concat3": op_concat(), "generic_concat": op_concat(True),
+    "select_grouped_other": op_select_grouped_other, "copy": op_copy(False), "deepcopy": op_copy(True),
+}
+
+
+def _register(mod, name, dims, dtype, extra):
+    @unit(P, "A1[%s structural operations]" % name, "A1", targets=[])
+    def u(ctx):
+        for c in CLASSES:
+            get_cls(c[0], c[1])
+        with oarr.patched_numpy(), loopcut.patched_modules(PATCH):
+            run_class(ctx, mod, name, dims, dtype, extra)
+    return u
+
+
+for _c in CLASSES:
+    _register(*_c)
